@@ -507,7 +507,7 @@ func (cr *CrashRec) CheckImages(cfg Cfg, u *Universe, mode string, class string)
 		if db != nil {
 			db.Close()
 		}
-		if len(cr.C.res.Viol) >= 8 {
+		if cr.C.Unexplained() >= 8 {
 			break
 		}
 	}
